@@ -150,8 +150,14 @@ def drive(eng, kind_, dt_e, r, mode):
         return k
     ncalls = 0
     call_cap = {"run1": 30000, "run2": 15000, "run5": 6000, "run1000": 60}.get(mode, MAXIT)
+    # a look at the partial trajectory in the middle of the run (a progress plot): reading is not driving - whatever calls follow,
+    # the final trajectory is the one of the undisturbed run
+    peek_at = r.choice([1, 2, 3, 5, 9]) if r.random() < 0.4 else None
     while cont and total < MAXIT and ncalls < call_cap:
         ncalls += 1
+        if ncalls == peek_at:
+            eng.get_output()
+            calls.append("peek")
         if mode == "iterate":
             cont = eng.iterate()
             total += 1
